@@ -173,7 +173,7 @@ def offerJson (o : Offer) : Json :=
     ("actions", .arr (o.actions.map fun a => Json.mkObj [("action", if a.action == "" then .null else .str a.action),
         ("input", jsonOfVal a.input),
         ("item_id", match a.itemId with | some i => jn i | none => .null)]).toArray),
-    ("delay", match o.delay with | some v => jsonOfVal v | none => .null),
+    ("delay", match o.delay with | some (.str _) => .str "<expr>" | some v => jsonOfVal v | none => .null),
     ("items_count", match o.itemsCount with | some n => jn n | none => .null),
     ("concurrency", match o.concurrency with | some v => jsonOfVal v | none => .str "<absent>"),
     ("ctx", jsonOfVal (.dict o.ctx))]
